@@ -23,6 +23,16 @@ CLAIMED = {
                      "membership operand on either side, attribute/index/call access, selected output, keyword field constraint, "
                      "rule-head constructor argument, flattened element) the rows equal the reference computed with Python "
                      "equality only; condition position is the control where truthiness is the meaning."),
+    "C05": dict(design_ref="DESIGN.md 7/C05",
+                text="Bounded-exhaustive symbolic execution: in ONE path the same shape is evaluated twice with caching enabled and "
+                     "twice (fresh query) with caching disabled on the same symbolic data; all four row sets are proved equal to "
+                     "the reference for EVERY data valuation (so equal to each other, counts included when all variables are "
+                     "selected). Cache hits are counted so the comparison is not vacuous."),
+    "C06": dict(design_ref="DESIGN.md 7/C06",
+                text="Bounded-exhaustive symbolic execution: the outcome class of the(desc).evaluate() (value / MultipleSolutionFound "
+                     "/ NoSolutionFound / anything else) is proved consistent with the NUMBER of satisfying assignments as a z3 term "
+                     "(=1, >=2, =0) for every data valuation - the solver, not a dataset, picks the region; re-evaluation and "
+                     "agreement with an(desc) are checked in the same path."),
 }
 
 NOT_APPLICABLE = {pid: PENDING for pid in ["C%02d" % i for i in range(1, 21)] if pid not in CLAIMED}
